@@ -498,8 +498,92 @@ def interrupted_end_case(ctx, i):
              for k, v in sorted(bad_ends.items(), key=str)][:1], reached)
 
 
+def own_logger_case(ctx, i):
+    """Model-free: actions given the application's own ILogger (`start_action(logger, ...)`; any object with a `write`
+    method, whatever that method returns) next to actions on the default logger: an exception raised in a block propagates,
+    the very same object, out of every enclosing block; each action gets exactly one start and one end; the end says
+    failed exactly when an exception left its block."""
+    import contextvars
+    import eliot
+    from eliot import _output
+
+    rng = ctx.rng("own-logger:%d" % i)
+    dst = _output.Logger._destinations
+    saved = (dst._destinations, dst._any_added, dst._globalFields)
+    dst.__init__()
+    seen = []
+    problems = []
+
+    class OwnLogger:
+        def __init__(self, ret):
+            self.ret = ret
+
+        def write(self, dictionary, serializer=None):
+            seen.append(dict(dictionary))
+            return self.ret  # nothing says what an ILogger's write returns; eliot must not care
+
+    loggers = [None, OwnLogger(None), OwnLogger(True), OwnLogger(1), OwnLogger("written"), OwnLogger([0])]
+    expected = {}
+    counter = [0]
+
+    class Boom(BaseException if rng.random() < 0.3 else Exception):
+        pass
+
+    def block(depth):
+        counter[0] += 1
+        name = "o:act%d" % counter[0]
+        lg = rng.choice(loggers)
+        raised = None
+        try:
+            with (eliot.start_action(action_type=name) if lg is None else eliot.start_action(lg, name)):
+                for _ in range(rng.randint(0, 2)):
+                    r = rng.random()
+                    if r < 0.45 and depth < 3:
+                        block(depth + 1)
+                    elif r < 0.75:
+                        eliot.log_message(message_type="o:msg")
+                    else:
+                        raised = Boom(name)
+                        raise raised
+        except BaseException as e:  # noqa
+            expected[name] = "failed"
+            if raised is not None and e is not raised:
+                problems.append("the exception raised in %s came out of its block as another object (%r)" % (name, e))
+            raise
+        else:
+            if raised is not None:
+                problems.append("the exception raised in %s did not leave its `with` block" % name)
+            expected[name] = "succeeded"
+
+    def main():
+        eliot.add_destinations(seen.append)
+        for _ in range(rng.randint(1, 3)):
+            try:
+                block(0)
+            except BaseException:  # noqa
+                pass
+
+    try:
+        contextvars.Context().run(main)
+    finally:
+        dst._destinations, dst._any_added, dst._globalFields = saved
+    for name, want in expected.items():
+        mine = [m for m in seen if m.get("action_type") == name]
+        starts = [m for m in mine if m.get("action_status") == "started"]
+        ends = [m.get("action_status") for m in mine if m.get("action_status") in ("succeeded", "failed")]
+        if len(starts) != 1 or ends != [want]:
+            problems.append("action %s: %d start message(s), end messages %s; an exception %s its block" % (name, len(starts), ends, "left" if want == "failed" else "did not leave"))
+    return problems[:1], len(expected)
+
+
 def run(ctx):
     import eliot
+    for i in range(ctx.budget(120, 3000)):
+        problems, n = own_logger_case(ctx, i)
+        ctx.case({"own-logger": i, "seed": ctx.seed}, nontrivial=n >= 2, tags=["own-logger"], sample=(i < 1))
+        if problems:
+            ctx.violation("own ILogger: " + problems[0], {"own-logger": i, "seed": ctx.seed})
+            break
     for i in range(ctx.budget(150, 4000)):
         problems, reached = interrupted_end_case(ctx, i)
         ctx.case({"interrupted-end": i, "seed": ctx.seed}, nontrivial=reached > 0, tags=["interrupted-end"], sample=(i < 2))
@@ -515,6 +599,12 @@ def run(ctx):
 
 def replay(ctx, obj):
     case = obj["case"]
+    if "own-logger" in case:
+        problems, n = own_logger_case(ctx, case["own-logger"])
+        print(problems, n)
+        if problems:
+            ctx.violation("own ILogger: " + problems[0], case)
+        return
     if "interrupted-end" in case:
         problems, reached = interrupted_end_case(ctx, case["interrupted-end"])
         print(problems, reached)
